@@ -61,7 +61,7 @@ pub fn templates() -> Vec<Template> {
             files: vec![lfile(
                 "x.js",
                 "let {} = 0;",
-                &format!("O|let pad0 = 0;\nO|let pad1 = 0;\nT0|/* é <block name=\"s\" keep-sorted z=\"1\"> note */ let b = 1;\nC|let a = 2;\nE0|/* </block> note */\nO|let pad2 = 0;\nO|let pad3 = 0;\nT1|/* <block name=\"c\" line-count=\"<1\" check-lua=\"{lua}\"> */ let c1 = 1;\nE1|// </block>\nO|let pad4 = 0;\nO|let tail = 0;"),
+                &format!("O|let pad0 = 0;\nO|let pad1 = 0;\nT0|/* é こんにちは世界ようこそ皆さんへ <block name=\"s\" keep-sorted z=\"1\"> note */ let b = 1;\nC|let a = 2;\nE0|/* </block> note */\nO|let pad2 = 0;\nO|let pad3 = 0;\nT1|/* <block name=\"c\" line-count=\"<1\" check-lua=\"{lua}\"> */ let c1 = 1;\nE1|// </block>\nO|let pad4 = 0;\nO|let tail = 0;"),
             )],
         },
         Template {
